@@ -25,85 +25,154 @@ Proof.
   rewrite andb_true_iff, ts_eq_eq, IH. split; [intros [-> ->]; reflexivity | intros H; inversion H; auto].
 Qed.
 
-(** ** one step: what either rule returns is inside both the proposed pair and the policy entry *)
+
+(** ** the two matching rules *)
 Definition larger_rule (tsi tsr : ts) (c : conf) : bool := is_subset tsi (c_peer_ts c) && is_subset tsr (c_my_ts c).
 Definition smaller_rule (tsi tsr : ts) (c : conf) : bool := is_subset (c_peer_ts c) tsi && is_subset (c_my_ts c) tsr.
 Definition comparable (tsi tsr : ts) (c : conf) : bool := larger_rule tsi tsr c || smaller_rule tsi tsr c.
 
-Lemma conf_step_spec tsi tsr c :
-  conf_step tsi tsr (c_my_ts c) (c_peer_ts c) =
-  if larger_rule tsi tsr c then Some (tsr, tsi)
-  else if smaller_rule tsi tsr c then Some (c_my_ts c, c_peer_ts c) else None.
+Definition larger_step (tsi tsr m p : ts) : option (ts * ts) :=
+  if is_subset tsi p && is_subset tsr m then Some (tsr, tsi) else None.
+Definition smaller_step (tsi tsr m p : ts) : option (ts * ts) :=
+  if is_subset p tsi && is_subset m tsr then Some (m, p) else None.
+
+(** the generated pass list is: all entries by the larger rule, then all entries by the smaller rule *)
+Lemma passes_spec tsi tsr protect :
+  try_passes conf_passes tsi tsr protect =
+  match find_conf larger_step tsi tsr protect with
+  | Some r => Some r
+  | None => find_conf smaller_step tsi tsr protect
+  end.
+Proof.
+  change (try_passes conf_passes tsi tsr protect) with
+    (match find_conf larger_step tsi tsr protect with
+     | Some r => Some r
+     | None => match find_conf smaller_step tsi tsr protect with Some r => Some r | None => None end
+     end).
+  destruct (find_conf larger_step tsi tsr protect); [reflexivity|].
+  destruct (find_conf smaller_step tsi tsr protect); reflexivity.
+Qed.
+
+Lemma larger_step_spec tsi tsr c :
+  larger_step tsi tsr (c_my_ts c) (c_peer_ts c) = if larger_rule tsi tsr c then Some (tsr, tsi) else None.
+Proof. reflexivity. Qed.
+Lemma smaller_step_spec tsi tsr c :
+  smaller_step tsi tsr (c_my_ts c) (c_peer_ts c) = if smaller_rule tsi tsr c then Some (c_my_ts c, c_peer_ts c) else None.
 Proof. reflexivity. Qed.
 
-Lemma conf_step_sound tsi tsr c my peer :
-  conf_step tsi tsr (c_my_ts c) (c_peer_ts c) = Some (my, peer) ->
-  peer ⊆ tsi /\ peer ⊆ c_peer_ts c /\ my ⊆ tsr /\ my ⊆ c_my_ts c.
-Proof.
-  rewrite conf_step_spec. unfold larger_rule, smaller_rule.
-  destruct (is_subset tsi (c_peer_ts c)) eqn:E1, (is_subset tsr (c_my_ts c)) eqn:E2; cbn [andb];
-    try (intros H; inversion H; subst; repeat split; auto using is_subset_refl; fail);
-    destruct (is_subset (c_peer_ts c) tsi) eqn:E3, (is_subset (c_my_ts c) tsr) eqn:E4; cbn [andb];
-    intros H; inversion H; subst; repeat split; auto using is_subset_refl.
-Qed.
-
-Lemma conf_step_none tsi tsr c :
-  conf_step tsi tsr (c_my_ts c) (c_peer_ts c) = None <-> comparable tsi tsr c = false.
-Proof.
-  rewrite conf_step_spec. unfold comparable.
-  destruct (larger_rule tsi tsr c), (smaller_rule tsi tsr c); cbn; split; intros; congruence.
-Qed.
-
-(** ** the three loops *)
-Lemma find_conf_some tsi tsr protect c my peer :
-  find_conf tsi tsr protect = Some (c, my, peer) ->
+(** ** one pass *)
+Lemma find_conf_some step tsi tsr protect c my peer :
+  find_conf step tsi tsr protect = Some (c, my, peer) ->
   exists pre post, protect = pre ++ c :: post /\
-    (forall c', In c' pre -> comparable tsi tsr c' = false) /\
-    conf_step tsi tsr (c_my_ts c) (c_peer_ts c) = Some (my, peer).
+    (forall c', In c' pre -> step tsi tsr (c_my_ts c') (c_peer_ts c') = None) /\
+    step tsi tsr (c_my_ts c) (c_peer_ts c) = Some (my, peer).
 Proof.
   induction protect as [|c0 rest IH]; cbn [find_conf]; [discriminate|].
-  destruct (conf_step tsi tsr (c_my_ts c0) (c_peer_ts c0)) as [[m p]|] eqn:E.
+  destruct (step tsi tsr (c_my_ts c0) (c_peer_ts c0)) as [[m p]|] eqn:E.
   - intros H; inversion H; subst. exists [], rest. repeat split; auto. intros c' [].
   - intros H. destruct (IH H) as (pre & post & -> & Hpre & Hstep).
     exists (c0 :: pre), post. repeat split; auto.
-    intros c' [<-|Hin]; [apply conf_step_none; exact E | auto].
+    intros c' [<-|Hin]; [exact E | auto].
 Qed.
 
-Lemma find_conf_none tsi tsr protect :
-  find_conf tsi tsr protect = None <-> forall c, In c protect -> comparable tsi tsr c = false.
+Lemma find_conf_none step tsi tsr protect :
+  find_conf step tsi tsr protect = None <->
+  forall c, In c protect -> step tsi tsr (c_my_ts c) (c_peer_ts c) = None.
 Proof.
   induction protect as [|c0 rest IH]; cbn [find_conf].
   - split; auto. intros _ c [].
-  - destruct (conf_step tsi tsr (c_my_ts c0) (c_peer_ts c0)) as [[m p]|] eqn:E.
-    + split; [discriminate|]. intros H. specialize (H c0 (or_introl eq_refl)).
-      apply conf_step_none in H. congruence.
+  - destruct (step tsi tsr (c_my_ts c0) (c_peer_ts c0)) as [[m p]|] eqn:E.
+    + split; [discriminate|]. intros H. specialize (H c0 (or_introl eq_refl)). congruence.
     + rewrite IH. split.
-      * intros H c [<-|Hin]; [apply conf_step_none; exact E | auto].
+      * intros H c [<-|Hin]; [exact E | auto].
       * intros H c Hin. apply H. right; exact Hin.
 Qed.
 
+Lemma find_conf_first step tsi tsr pre c post my peer :
+  (forall c', In c' pre -> step tsi tsr (c_my_ts c') (c_peer_ts c') = None) ->
+  step tsi tsr (c_my_ts c) (c_peer_ts c) = Some (my, peer) ->
+  find_conf step tsi tsr (pre ++ c :: post) = Some (c, my, peer).
+Proof.
+  intros Hpre Hc. induction pre as [|c' pre IH]; cbn [app find_conf].
+  - rewrite Hc. reflexivity.
+  - rewrite (Hpre c' (or_introl eq_refl)). apply IH. intros x Hx. apply Hpre. right; exact Hx.
+Qed.
+
+Lemma larger_none tsi tsr c : larger_step tsi tsr (c_my_ts c) (c_peer_ts c) = None <-> larger_rule tsi tsr c = false.
+Proof. rewrite larger_step_spec. destruct (larger_rule tsi tsr c); split; congruence. Qed.
+Lemma smaller_none tsi tsr c : smaller_step tsi tsr (c_my_ts c) (c_peer_ts c) = None <-> smaller_rule tsi tsr c = false.
+Proof. rewrite smaller_step_spec. destruct (smaller_rule tsi tsr c); split; congruence. Qed.
+
+(** what the passes return, exactly *)
+Lemma passes_some tsi tsr protect c my peer :
+  try_passes conf_passes tsi tsr protect = Some (c, my, peer) ->
+  exists pre post, protect = pre ++ c :: post /\
+    (((forall c', In c' pre -> larger_rule tsi tsr c' = false) /\ larger_rule tsi tsr c = true /\
+     my = tsr /\ peer = tsi) \/
+    ((forall c', In c' protect -> larger_rule tsi tsr c' = false) /\
+     (forall c', In c' pre -> smaller_rule tsi tsr c' = false) /\ smaller_rule tsi tsr c = true /\
+     my = c_my_ts c /\ peer = c_peer_ts c)).
+Proof.
+  rewrite passes_spec. destruct (find_conf larger_step tsi tsr protect) as [r|] eqn:EL.
+  - intros H; inversion H; subst r; clear H.
+    destruct (find_conf_some _ _ _ _ _ _ _ EL) as (pre & post & -> & Hpre & Hstep).
+    exists pre, post. split; [reflexivity|]. left.
+    rewrite larger_step_spec in Hstep. destruct (larger_rule tsi tsr c) eqn:E; [|discriminate].
+    inversion Hstep; subst. repeat split; auto. intros c' Hc'. apply larger_none. auto.
+  - intros ES. destruct (find_conf_some _ _ _ _ _ _ _ ES) as (pre & post & -> & Hpre & Hstep).
+    exists pre, post. split; [reflexivity|]. right.
+    rewrite smaller_step_spec in Hstep. destruct (smaller_rule tsi tsr c) eqn:E; [|discriminate].
+    inversion Hstep; subst. repeat split; auto.
+    + intros c' Hc'. apply larger_none. rewrite find_conf_none in EL. auto.
+    + intros c' Hc'. apply smaller_none. auto.
+Qed.
+
+Lemma passes_none tsi tsr protect :
+  try_passes conf_passes tsi tsr protect = None <-> forall c, In c protect -> comparable tsi tsr c = false.
+Proof.
+  rewrite passes_spec. unfold comparable. split.
+  - destruct (find_conf larger_step tsi tsr protect) eqn:EL; [discriminate|]. intros ES c Hc.
+    rewrite find_conf_none in EL, ES. rewrite (proj1 (larger_none _ _ _) (EL c Hc)), (proj1 (smaller_none _ _ _) (ES c Hc)).
+    reflexivity.
+  - intros H.
+    assert (EL : find_conf larger_step tsi tsr protect = None).
+    { apply find_conf_none. intros c Hc. apply larger_none. specialize (H c Hc). apply orb_false_iff in H. tauto. }
+    rewrite EL. apply find_conf_none. intros c Hc. apply smaller_none. specialize (H c Hc). apply orb_false_iff in H. tauto.
+Qed.
+
+Lemma passes_sound tsi tsr protect c my peer :
+  try_passes conf_passes tsi tsr protect = Some (c, my, peer) ->
+  In c protect /\ peer ⊆ tsi /\ peer ⊆ c_peer_ts c /\ my ⊆ tsr /\ my ⊆ c_my_ts c.
+Proof.
+  intros H. destruct (passes_some _ _ _ _ _ _ H) as (pre & post & -> & [(_ & HL & -> & ->)|(_ & _ & HS & -> & ->)]);
+    (split; [apply in_or_app; right; left; reflexivity|]).
+  - unfold larger_rule in HL. apply andb_true_iff in HL. destruct HL. repeat split; auto using is_subset_refl.
+  - unfold smaller_rule in HS. apply andb_true_iff in HS. destruct HS. repeat split; auto using is_subset_refl.
+Qed.
+
+(** ** the two outer loops *)
 Lemma loop_tsr_some tsi tsrs protect r :
-  loop_tsr tsi tsrs protect = Some r -> exists tsr, In tsr tsrs /\ find_conf tsi tsr protect = Some r.
+  loop_tsr tsi tsrs protect = Some r -> exists tsr, In tsr tsrs /\ try_passes conf_passes tsi tsr protect = Some r.
 Proof.
   induction tsrs as [|t rest IH]; cbn [loop_tsr]; [discriminate|].
-  destruct (find_conf tsi t protect) eqn:E.
+  destruct (try_passes conf_passes tsi t protect) eqn:E.
   - intros H; inversion H; subst. exists t. split; [left; reflexivity | exact E].
   - intros H. destruct (IH H) as (tsr & Hin & Hf). exists tsr. split; [right; exact Hin | exact Hf].
 Qed.
 
 Lemma loop_tsr_none tsi tsrs protect :
-  loop_tsr tsi tsrs protect = None <-> forall tsr, In tsr tsrs -> find_conf tsi tsr protect = None.
+  loop_tsr tsi tsrs protect = None <-> forall tsr, In tsr tsrs -> try_passes conf_passes tsi tsr protect = None.
 Proof.
   induction tsrs as [|t rest IH]; cbn [loop_tsr].
   - split; auto. intros _ t [].
-  - destruct (find_conf tsi t protect) eqn:E.
+  - destruct (try_passes conf_passes tsi t protect) eqn:E.
     + split; [discriminate|]. intros H. rewrite (H t (or_introl eq_refl)) in E. discriminate.
     + rewrite IH. split; [intros H x [<-|Hin]; auto | intros H x Hin; apply H; right; exact Hin].
 Qed.
 
 Lemma loop_tsi_some tsis tsrs protect r :
   loop_tsi tsis tsrs protect = Some r ->
-  exists tsi tsr, In tsi tsis /\ In tsr tsrs /\ find_conf tsi tsr protect = Some r.
+  exists tsi tsr, In tsi tsis /\ In tsr tsrs /\ try_passes conf_passes tsi tsr protect = Some r.
 Proof.
   induction tsis as [|t rest IH]; cbn [loop_tsi]; [discriminate|].
   destruct (loop_tsr t tsrs protect) eqn:E.
@@ -137,10 +206,9 @@ Proof.
   unfold get_ipsec_configuration. destruct (loop_tsi _ _ _) as [r|] eqn:E; [|discriminate].
   intros H; inversion H; subst r; clear H.
   destruct (loop_tsi_some _ _ _ _ E) as (tsi & tsr & Hi & Hr & Hf).
-  destruct (find_conf_some _ _ _ _ _ _ Hf) as (pre & post & -> & _ & Hstep).
-  destruct (conf_step_sound _ _ _ _ _ Hstep) as (A & B & C & D).
+  destruct (passes_sound _ _ _ _ _ _ Hf) as (Hin & A & B & C & D).
   apply (proj1 (in_iter_tsi _ _)) in Hi. apply (proj1 (in_iter_tsr _ _)) in Hr.
-  split; [apply in_or_app; right; left; reflexivity|].
+  split; [exact Hin|].
   split; [exists tsi; auto|]. split; [exact B|]. split; [exists tsr; auto | exact D].
 Qed.
 
@@ -161,16 +229,14 @@ Theorem no_policy protect tsis tsrs :
 Proof.
   unfold get_ipsec_configuration. split.
   - intros H. destruct (loop_tsi _ _ _) as [r|] eqn:E; [|reflexivity]. exfalso.
-    destruct r as [[c my] peer].
     destruct (loop_tsi_some _ _ _ _ E) as (tsi & tsr & Hi & Hr & Hf).
-    destruct (find_conf_some _ _ _ _ _ _ Hf) as (pre & post & -> & _ & Hstep).
     apply (proj1 (in_iter_tsi _ _)) in Hi. apply (proj1 (in_iter_tsr _ _)) in Hr.
-    specialize (H tsi tsr c Hi Hr ltac:(apply in_or_app; right; left; reflexivity)).
-    apply conf_step_none in H. congruence.
+    assert (HN : try_passes conf_passes tsi tsr protect = None) by (apply passes_none; intros c Hc; auto).
+    congruence.
   - destruct (loop_tsi _ _ _) as [r|] eqn:E; [discriminate|]. intros _ tsi tsr c Hi Hr Hc.
     rewrite loop_tsi_none in E. specialize (E tsi (proj2 (in_iter_tsi _ _) Hi)).
     rewrite loop_tsr_none in E. specialize (E tsr (proj2 (in_iter_tsr _ _) Hr)).
-    rewrite find_conf_none in E. auto.
+    rewrite passes_none in E. auto.
 Qed.
 
 (** the lookup never raises anything else *)
@@ -248,14 +314,15 @@ Proof.
   apply ts_list_eq_eq in E1, E2. tauto.
 Qed.
 
-(** what an accepted rekey installs: the first policy entry comparable with the replaced SA's selectors decides;
-    by the larger rule the replaced SA's selectors, by the smaller rule the entry's own. In both cases nothing wider. *)
+(** what an accepted rekey installs: the replaced SA's selectors if some policy entry covers them (the first such
+    entry is the policy used); otherwise the selectors of the first entry lying inside them.  Never anything wider. *)
 Theorem rekey_installed protect old_tsi old_tsr tsis tsrs tn c ch :
   responder_child protect (Some (old_tsi, old_tsr)) tsis tsrs tn = Ok (c, ch) ->
   exists pre post, protect = pre ++ c :: post /\
-    (forall c', In c' pre -> comparable old_tsr old_tsi c' = false) /\
-    ((larger_rule old_tsr old_tsi c = true /\ ch_tsi ch = old_tsi /\ ch_tsr ch = old_tsr) \/
-     (larger_rule old_tsr old_tsi c = false /\ smaller_rule old_tsr old_tsi c = true /\
+    (((forall c', In c' pre -> larger_rule old_tsr old_tsi c' = false) /\ larger_rule old_tsr old_tsi c = true /\
+      ch_tsi ch = old_tsi /\ ch_tsr ch = old_tsr) \/
+     ((forall c', In c' protect -> larger_rule old_tsr old_tsi c' = false) /\
+      (forall c', In c' pre -> smaller_rule old_tsr old_tsi c' = false) /\ smaller_rule old_tsr old_tsi c = true /\
       ch_tsi ch = c_my_ts c /\ ch_tsr ch = c_peer_ts c)) /\
     ch_tsi ch ⊆ old_tsi /\ ch_tsr ch ⊆ old_tsr.
 Proof.
@@ -263,22 +330,32 @@ Proof.
   destruct (Hrk _ _ eq_refl) as [-> ->]. clear Hrk.
   unfold responder_child in H. destruct (rekey_ts_mismatch _ _ _ _); [discriminate|].
   unfold get_ipsec_configuration, iter_tsi, iter_tsr in H. cbn [rev app loop_tsi loop_tsr] in H.
-  destruct (find_conf old_tsr old_tsi protect) as [[[c0 my] peer]|] eqn:Ef; [|discriminate].
+  destruct (try_passes conf_passes old_tsr old_tsi protect) as [[[c0 my] peer]|] eqn:Ef; [|discriminate].
   destruct (responder_mode_mismatch _ _); [discriminate|]. unfold responder_child_ts in H.
   inversion H; subst; clear H. cbn [ch_tsi ch_tsr].
-  destruct (find_conf_some _ _ _ _ _ _ Ef) as (pre & post & -> & Hpre & Hstep).
-  exists pre, post. split; [reflexivity|]. split; [exact Hpre|].
-  rewrite conf_step_spec in Hstep.
-  destruct (larger_rule old_tsr old_tsi c) eqn:EL.
-  - inversion Hstep; subst. split; [left; auto|]. split; apply is_subset_refl.
-  - destruct (smaller_rule old_tsr old_tsi c) eqn:ES; [|discriminate]. inversion Hstep; subst.
-    split; [right; auto|]. unfold smaller_rule in ES. apply andb_true_iff in ES. tauto.
+  destruct (passes_some _ _ _ _ _ _ Ef) as (pre & post & -> & Hcase).
+  exists pre, post. split; [reflexivity|].
+  destruct Hcase as [(Hpre & HL & -> & ->)|(Hall & Hpre & HS & -> & ->)].
+  - split; [left; auto|]. split; apply is_subset_refl.
+  - split; [right; auto|]. unfold smaller_rule in HS. apply andb_true_iff in HS. tauto.
 Qed.
 
-(** if the replaced SA's selectors lie inside a policy entry and no earlier entry is comparable with them
-    (in particular: a single-entry policy), the rekeyed SA gets exactly the replaced SA's selectors *)
-Theorem rekey_same_partial pre c0 post old_tsi old_tsr tn :
-  (forall c', In c' pre -> comparable old_tsr old_tsi c' = false) ->
+(** FULL: an accepted rekey installs exactly the replaced SA's selectors, provided they lie inside some policy entry
+    (an invariant of the CHILD_SAs this code creates: narrowing and C12_initiator_narrow) *)
+Theorem rekey_same protect old_tsi old_tsr tsis tsrs tn c ch :
+  (exists c0, In c0 protect /\ old_tsr ⊆ c_peer_ts c0 /\ old_tsi ⊆ c_my_ts c0) ->
+  responder_child protect (Some (old_tsi, old_tsr)) tsis tsrs tn = Ok (c, ch) ->
+  ch_tsi ch = old_tsi /\ ch_tsr ch = old_tsr /\ old_tsr ⊆ c_peer_ts c /\ old_tsi ⊆ c_my_ts c.
+Proof.
+  intros (c0 & Hin & H1 & H2) H.
+  destruct (rekey_installed _ _ _ _ _ _ _ _ H) as (pre & post & -> & [(_ & HL & A & B)|(Hall & _)] & _).
+  - unfold larger_rule in HL. apply andb_true_iff in HL. tauto.
+  - exfalso. specialize (Hall c0 Hin). unfold larger_rule in Hall. rewrite H1, H2 in Hall. discriminate.
+Qed.
+
+(** ... and such a rekey is accepted iff the first covering entry has the requested mode *)
+Theorem rekey_accepted pre c0 post old_tsi old_tsr tn :
+  (forall c', In c' pre -> larger_rule old_tsr old_tsi c' = false) ->
   old_tsr ⊆ c_peer_ts c0 -> old_tsi ⊆ c_my_ts c0 -> c_mode c0 = requested_mode tn ->
   responder_child (pre ++ c0 :: post) (Some (old_tsi, old_tsr)) [old_tsr] [old_tsi] tn =
   Ok (c0, {| ch_tsi := old_tsi; ch_tsr := old_tsr; ch_mode := requested_mode tn |}).
@@ -286,31 +363,35 @@ Proof.
   intros Hpre H1 H2 Hm. unfold responder_child, rekey_ts_mismatch.
   rewrite !(proj2 (ts_list_eq_eq _ _) eq_refl). cbn [negb orb].
   unfold get_ipsec_configuration, iter_tsi, iter_tsr. cbn [rev app loop_tsi loop_tsr].
-  assert (Hf : find_conf old_tsr old_tsi (pre ++ c0 :: post) = Some (c0, old_tsi, old_tsr)).
-  { induction pre as [|c' pre IH]; cbn [app find_conf].
-    - rewrite conf_step_spec. unfold larger_rule. rewrite H1, H2. reflexivity.
-    - rewrite (proj2 (conf_step_none _ _ _) (Hpre c' (or_introl eq_refl))). apply IH.
-      intros x Hx. apply Hpre. right; exact Hx. }
-  rewrite Hf. unfold responder_mode_mismatch. rewrite Hm, Z.eqb_refl. reflexivity.
+  rewrite passes_spec.
+  rewrite (find_conf_first larger_step old_tsr old_tsi pre c0 post old_tsi old_tsr).
+  - unfold responder_mode_mismatch. rewrite Hm, Z.eqb_refl. reflexivity.
+  - intros c' Hc'. apply larger_none. auto.
+  - rewrite larger_step_spec. unfold larger_rule. rewrite H1, H2. reflexivity.
 Qed.
 
-(** ... and without that hypothesis the equality fails: an earlier, narrower entry answers the rekey.
-    The replaced SA (tcp+udp+... 10.0.1.0/24 <-> 10.0.2.0/24, the selectors of the second entry, e.g. created as
-    initiator from an acquire of that entry) is rekeyed with the selectors of the first entry (tcp port 80 only). *)
+(** regression (finding F15, fixed): an earlier, narrower entry no longer answers the rekey of an SA that belongs
+    to a later, wider entry *)
 Definition rk_c1 : conf := {| c_index := 1; c_mode := MODE_TUNNEL;
   c_my_ts := from_network 4 167772416 24 80 6; c_peer_ts := from_network 4 167772672 24 0 6 |}.
 Definition rk_c0 : conf := {| c_index := 2; c_mode := MODE_TUNNEL;
   c_my_ts := from_network 4 167772416 24 0 0; c_peer_ts := from_network 4 167772672 24 0 0 |}.
 
-Theorem rekey_same_refuted :
+Example rekey_witness_fixed :
+  responder_child [rk_c1; rk_c0] (Some (c_my_ts rk_c0, c_peer_ts rk_c0)) [c_peer_ts rk_c0] [c_my_ts rk_c0] false =
+  Ok (rk_c0, {| ch_tsi := c_my_ts rk_c0; ch_tsr := c_peer_ts rk_c0; ch_mode := MODE_TUNNEL |}).
+Proof. vm_compute. reflexivity. Qed.
+
+(** the hypothesis of [rekey_same] cannot be dropped: an SA whose selectors no policy entry covers (e.g. the
+    configuration changed) is rekeyed with the selectors of an entry inside them *)
+Theorem rekey_same_needs_covering_entry :
   exists protect old_tsi old_tsr tn c ch,
-    (exists c0, In c0 protect /\ old_tsi = c_my_ts c0 /\ old_tsr = c_peer_ts c0) /\
     responder_child protect (Some (old_tsi, old_tsr)) [old_tsr] [old_tsi] tn = Ok (c, ch) /\
     ch_tsi ch <> old_tsi /\ ch_tsr ch <> old_tsr.
 Proof.
-  exists [rk_c1; rk_c0], (c_my_ts rk_c0), (c_peer_ts rk_c0), false, rk_c1,
+  exists [rk_c1], (c_my_ts rk_c0), (c_peer_ts rk_c0), false, rk_c1,
     {| ch_tsi := c_my_ts rk_c1; ch_tsr := c_peer_ts rk_c1; ch_mode := MODE_TUNNEL |}.
-  split; [exists rk_c0; cbn; auto|]. split; [vm_compute; reflexivity|]. split; intros H; vm_compute in H; discriminate.
+  split; [vm_compute; reflexivity|]. split; intros H; vm_compute in H; discriminate.
 Qed.
 
 (** ** initiator *)
